@@ -252,3 +252,9 @@ func JSON(v interface{}) string {
 	}
 	return string(b)
 }
+
+// NewBareCase creates a case context outside the runner (used by auxiliary workloads).
+func NewBareCase(property, tier string, seed int64, index int) *Case {
+	res := &CaseResult{Index: index}
+	return &Case{Property: property, Tier: tier, Seed: seed, Index: index, R: rand.New(rand.NewSource(CaseSeed(seed, property, index))), res: res}
+}
